@@ -293,8 +293,7 @@ def setter_frame_stream(ctx, rng, hist, divergences, violations):
         schema = G.SCHEMAS[(ctx.seed + k) % len(G.SCHEMAS)] if ctx.tier == "quick" else G.SCHEMAS[k % len(G.SCHEMAS)]
         snap = G.gen_snapshot(rng, ctx.tier, 7000 + k, valid_bias=1.0)
         snap["relative_path"] = b"frame/t%d.mp3" % k
-        if snap.get("waveform") and (snap.get("sample_count") is None or snap.get("sample_rate") is None):
-            snap["waveform"] = b""
+        G.storable_waveform(snap)
         if isinstance(snap.get("sample_rate"), str) and snap.get("waveform"):
             snap["sample_rate"] = 44100.0
         sets = ", ".join("%s = X'%s'" % (c, _frame_blob(COLKIND[c], pay[c]).hex()) for c in COLS)
